@@ -42,7 +42,24 @@ func ZZ_C16_sequential() {
 	e := zzChanEnv(a, b, c)
 	elem := []string{"int64", "interface"}[zz.Choose(2)]
 	mk := "ch = make(chan " + elem + ", 3)\n"
-	switch zz.Choose(9) {
+	switch zz.Choose(11) {
+	case 9:
+		// leaving a for-in over a channel early consumes exactly what it received
+		exit := []string{"break", "throw 1"}[zz.Choose(2)]
+		r, err := Execute(e, nil, mk+"ch <- A; ch <- B; ch <- C; try { for x in ch { "+exit+" } } catch e { }; [<-ch, <-ch]")
+		l, ok := zzIntList(r)
+		zz.Assert(err == nil && ok && len(l) == 2, "C16.for-in-chan-early-exit/runs")
+		if ok && len(l) == 2 {
+			zz.Assert(zz.And(l[0] == b, l[1] == c), "C16.for-in-chan-early-exit/later-receiver-gets-the-remaining-items")
+		}
+	case 10:
+		// a function leaving the loop by return
+		r, err := Execute(e, nil, mk+"ch <- A; ch <- B; f = func() { for x in ch { return x } }; [f(), <-ch]")
+		l, ok := zzIntList(r)
+		zz.Assert(err == nil && ok && len(l) == 2, "C16.for-in-chan-return/runs")
+		if ok && len(l) == 2 {
+			zz.Assert(zz.And(l[0] == a, l[1] == b), "C16.for-in-chan-return/received-once-in-order")
+		}
 	case 0:
 		r, err := Execute(e, nil, mk+"ch <- A; ch <- B; ch <- C; [<-ch, <-ch, <-ch]")
 		l, ok := zzIntList(r)
@@ -122,6 +139,12 @@ func ZZ_C16_go_args() {
 	_, has1 := pos[1]
 	_, has10 := pos[10]
 	zz.Assert(has0 && has1 && has10 && len(tr) == 4, "C16.go/every-probe-once")
+	// a go call of a script function with 1..4 parameters and a receiving argument
+	e2 := zzChanEnv(0, 0, 0)
+	r2, err2 := Execute(e2, nil, "jobs = make(chan int64, 2); jobs <- 10; jobs <- 20; res = make(chan int64, 1)\nworker = func(j) { res <- j }\ngo worker(<-jobs)\n[<-res, len(jobs)]")
+	zz.Drain()
+	l2, ok2 := zzIntList(r2)
+	zz.Assert(err2 == nil && ok2 && len(l2) == 2 && l2[0] == 10 && l2[1] == 1, "C16.go/argument-evaluated-exactly-once")
 	if has0 && has1 && has10 {
 		zz.Assert(pos[0] < pos[1] && pos[1] < pos[10], "C16.go/arguments-before-callee-starts")
 	}
